@@ -149,22 +149,28 @@ def explore_core(ctx: Ctx, prop: CoreProp) -> Exploration:
                 expected = meta.get("expect_known")
                 if vs:
                     stats["oracle_failures"] += 1
-                    what, opi, detail = vs[0]
-                    kid = expected if expected in listed else None
-                    if kid is None and prop.classify is not None:
-                        c = prop.classify(prog, meta, what)
-                        kid = c if c in listed else None
-                    if kid:
-                        stats["known_seen"][kid] = stats["known_seen"].get(kid, 0) + 1
-                        exp.findings.append(Finding("failing-input", what, {"program": prog, "meta": meta,
-                                                                            "detail": detail, "engine": "core"}, known_id=kid))
-                    else:
+                    match = meta.get("expect_known_match")
+                    new_vs = []
+                    for what, opi, detail in vs:
+                        kid = None
+                        if expected in listed and (not match or any(m in what for m in match)):
+                            kid = expected
+                        if kid is None and prop.classify is not None:
+                            c = prop.classify(prog, meta, what)
+                            kid = c if c in listed else None
+                        if kid:
+                            if stats["known_seen"].get(kid, 0) == 0:
+                                exp.findings.append(Finding("failing-input", what, {"program": prog, "meta": meta,
+                                                                                    "detail": detail, "engine": "core"}, known_id=kid))
+                            stats["known_seen"][kid] = stats["known_seen"].get(kid, 0) + 1
+                        else:
+                            new_vs.append((what, opi, detail))
+                    if new_vs:
                         # relations are indexed by operation, so the history is reported as generated
-                        small, ia, v2 = prog, a, vs
                         exp.findings.append(Finding(
-                            "failing-input", (v2 or vs)[0][0],
-                            {"program": small, "meta": meta, "detail": (v2 or vs)[0][2], "impl": ia,
-                             "hashseed": hashseed, "engine": "core"}))
+                            "failing-input", new_vs[0][0],
+                            {"program": prog, "meta": meta, "detail": new_vs[0][2], "impl": a,
+                             "all": [w for w, _, _ in new_vs][:10], "hashseed": hashseed, "engine": "core"}))
                 if prop.nontrivial is not None and prop.nontrivial(prog, a):
                     nontrivial.add(dumps({"n": prog.get("nodes"), "o": prog.get("ops")}))
             if len(samples) < 4 and not meta.get("corpus"):
